@@ -51,9 +51,21 @@ func CCITTFaxDecode(data []byte, params Params) ([]byte, error) {
 		rows = ccitt.AutoDetectHeight
 	}
 
+	// One input bit can stand for a whole row (the Group 4 code "same as the row
+	// above" is a single 1), and the row width is Columns as the file gives it:
+	// with /Columns 1048576, 2 KB of 0xFF bytes decoded to 2 GiB (47 s) and 20 KB
+	// to 20 GiB. The decoded image is therefore limited in size.
 	reader := ccitt.NewReader(bytes.NewReader(data), ccitt.MSB, sf, columns, rows, opts)
-	return io.ReadAll(reader)
+	out, err := io.ReadAll(io.LimitReader(reader, maxCCITTOutput+1))
+	if len(out) > maxCCITTOutput {
+		return nil, fmt.Errorf("CCITTFaxDecode: image larger than %d bytes", maxCCITTOutput)
+	}
+	return out, err
 }
+
+// maxCCITTOutput is the largest bi-level image CCITTFaxDecode produces: 64 MiB,
+// 512 megapixels (an A4 page at 1200 dpi has 140).
+const maxCCITTOutput = 64 << 20
 
 // getBoolParam extracts a boolean parameter from Params, returning defaultValue
 // if the parameter is missing or cannot be converted to a boolean.
